@@ -179,7 +179,7 @@ impl Array {
             None,
             &unrolled.dimensions,
             &output_dimensions,
-            3,
+            2,
             0,
         );
 
@@ -210,13 +210,17 @@ impl Array {
 
         let values_length = self.values.len();
         // the stride between two convolution outputs
-        let stride = values_length / filter_count;
+        let stride = self.dimensions[self.dimensions.len() - 2];
+        // the length of each image, which is transposed on its own
+        let image_length = stride * filter_count;
         let mut result = vec![0.0; values_length];
         let mut result_index = 0;
-        for k in 0..filter_count {
-            for i in 0..stride {
-                result[result_index] = self.values[k + filter_count * i];
-                result_index += 1;
+        for image_offset in (0..values_length).step_by(image_length) {
+            for k in 0..filter_count {
+                for i in 0..stride {
+                    result[result_index] = self.values[image_offset + k + filter_count * i];
+                    result_index += 1;
+                }
             }
         }
 
@@ -236,10 +240,12 @@ impl Array {
             let backward_op: BackwardOp = Rc::new(move |c, _, x| {
                 let mut result = vec![0.0; values_length];
                 let mut delta_index = 0;
-                for k in 0..filter_count {
-                    for i in 0..stride {
-                        result[k + filter_count * i] = x.values[delta_index];
-                        delta_index += 1;
+                for image_offset in (0..values_length).step_by(image_length) {
+                    for k in 0..filter_count {
+                        for i in 0..stride {
+                            result[image_offset + k + filter_count * i] = x.values[delta_index];
+                            delta_index += 1;
+                        }
                     }
                 }
 
